@@ -35,11 +35,16 @@
      parse_addressed ........ the Ampersand arm of parse_primary_expression up to the Deref
                               node (1277-1298); the first `&` is already taken
      parse_reference ........ parse_reference (1405-1434), used by `|x|`
-     steps_loop ............. parse_deref_steps_list (1436-1467): `for _ in 0..MAX_REFERENCE_DEPTH`;
-                              [k] is the number of iterations already done; when the 127
-                              iterations are used up the function fails WITHOUT looking at
-                              the next token, so at most 126 steps are accepted (the first
-                              generation accepts 127)
+     steps_loop ............. parse_deref_steps_list (1436-1467) AFTER THE REPAIR of line 1443:
+                              `for _ in 0..=MAX_REFERENCE_DEPTH` (128 iterations); [k] is the
+                              number of iterations already done; after 127 steps the 128th
+                              iteration finds no further step and returns Ok; a 128th step is
+                              consumed and then the loop ends in MaximumParseDepthExceeded
+                              (127 accepted, 128 rejected, as in the first generation)
+     steps_loop_pinned, parse_expression_pinned_res ... the same code BEFORE the repair
+                              (`for _ in 0..MAX_REFERENCE_DEPTH`, the pinned commit): when the
+                              127 iterations are used up the function fails WITHOUT looking at
+                              the next token, so at most 126 steps are accepted
      expr_list .............. parse_rest_of_arguments (815-843) for br = false; the array arm
                               of parse_primary_expression (1359-1383) for br = true (its
                               leading `if !consume_optional(BracketRight)` is subsumed by the
@@ -212,71 +217,75 @@ Fixpoint amp_loop (d : N) (ts : list tok) : option (N * list tok) :=
   | [] => Some (d, ts)
   end.
 
-Fixpoint parse_addition (f : nat) (ts : list tok) {struct f} : res (expr * list tok) :=
+(* The whole mutual block takes [lim], the number of iterations the `for` loop of
+   parse_deref_steps_list can make: MAX_REFERENCE_DEPTH + 1 = 128 for the REPAIRED code
+   (`for _ in 0..=MAX_REFERENCE_DEPTH`), MAX_REFERENCE_DEPTH = 127 for the code at the
+   pinned commit (`for _ in 0..MAX_REFERENCE_DEPTH`).  Nothing else depends on it. *)
+Fixpoint parse_addition_g (lim : nat) (f : nat) (ts : list tok) {struct f} : res (expr * list tok) :=
   match f with
   | O => Fuel
-  | S f => bind (parse_multiplication f ts) (fun '(e, ts1) => add_loop f e ts1)
+  | S f => bind (parse_multiplication_g lim f ts) (fun '(e, ts1) => add_loop_g lim f e ts1)
   end
 
-with add_loop (f : nat) (acc : expr) (ts : list tok) {struct f} : res (expr * list tok) :=
+with add_loop_g (lim : nat) (f : nat) (acc : expr) (ts : list tok) {struct f} : res (expr * list tok) :=
   match f with
   | O => Fuel
   | S f =>
     match bitop_of (hdk ts) with
-    | Some op => bit_loop f op acc (tl ts)
+    | Some op => bit_loop_g lim f op acc (tl ts)
     | None =>
       match shiftop_of (hdk ts) with
       | Some op =>
-          bind (parse_unary f (tl ts)) (fun '(r, ts1) => Ok (EBinary op acc r, ts1))
+          bind (parse_unary_g lim f (tl ts)) (fun '(r, ts1) => Ok (EBinary op acc r, ts1))
       | None =>
         match addop_of (hdk ts) with
         | Some op =>
-            bind (parse_multiplication f (tl ts)) (fun '(r, ts1) =>
-              add_loop f (EBinary op acc r) ts1)
+            bind (parse_multiplication_g lim f (tl ts)) (fun '(r, ts1) =>
+              add_loop_g lim f (EBinary op acc r) ts1)
         | None => Ok (acc, ts)
         end
       end
     end
   end
 
-with bit_loop (f : nat) (op : binop) (acc : expr) (ts : list tok) {struct f}
+with bit_loop_g (lim : nat) (f : nat) (op : binop) (acc : expr) (ts : list tok) {struct f}
   : res (expr * list tok) :=
   match f with
   | O => Fuel
   | S f =>
-    bind (parse_unary f ts) (fun '(r, ts1) =>
-      if same_bitop op (hdk ts1) then bit_loop f op (EBinary op acc r) (tl ts1)
+    bind (parse_unary_g lim f ts) (fun '(r, ts1) =>
+      if same_bitop op (hdk ts1) then bit_loop_g lim f op (EBinary op acc r) (tl ts1)
       else Ok (EBinary op acc r, ts1))
   end
 
-with parse_multiplication (f : nat) (ts : list tok) {struct f} : res (expr * list tok) :=
+with parse_multiplication_g (lim : nat) (f : nat) (ts : list tok) {struct f} : res (expr * list tok) :=
   match f with
   | O => Fuel
-  | S f => bind (parse_singular f ts) (fun '(e, ts1) => mul_loop f e ts1)
+  | S f => bind (parse_singular_g lim f ts) (fun '(e, ts1) => mul_loop_g lim f e ts1)
   end
 
-with mul_loop (f : nat) (acc : expr) (ts : list tok) {struct f} : res (expr * list tok) :=
+with mul_loop_g (lim : nat) (f : nat) (acc : expr) (ts : list tok) {struct f} : res (expr * list tok) :=
   match f with
   | O => Fuel
   | S f =>
     match mulop_of (hdk ts) with
     | Some op =>
-        bind (parse_singular f (tl ts)) (fun '(r, ts1) => mul_loop f (EBinary op acc r) ts1)
+        bind (parse_singular_g lim f (tl ts)) (fun '(r, ts1) => mul_loop_g lim f (EBinary op acc r) ts1)
     | None => Ok (acc, ts)
     end
   end
 
-with parse_singular (f : nat) (ts : list tok) {struct f} : res (expr * list tok) :=
+with parse_singular_g (lim : nat) (f : nat) (ts : list tok) {struct f} : res (expr * list tok) :=
   match f with
   | O => Fuel
   | S f =>
     if isCast (hdk ts) then
-      bind (parse_unary f (tl ts)) (fun '(e, ts1) => as_loop f (EBitCast e) ts1)
+      bind (parse_unary_g lim f (tl ts)) (fun '(e, ts1) => as_loop f (EBitCast e) ts1)
     else
-      bind (parse_unary f ts) (fun '(e, ts1) => as_loop f e ts1)
+      bind (parse_unary_g lim f ts) (fun '(e, ts1) => as_loop f e ts1)
   end
 
-with parse_unary (f : nat) (ts : list tok) {struct f} : res (expr * list tok) :=
+with parse_unary_g (lim : nat) (f : nat) (ts : list tok) {struct f} : res (expr * list tok) :=
   match f with
   | O => Fuel
   | S f =>
@@ -285,17 +294,17 @@ with parse_unary (f : nat) (ts : list tok) {struct f} : res (expr * list tok) :=
         bind (parse_type f (tl ts)) (fun '(t, ts1) =>
         bind (expect_r isPipe ts1) (fun ts2 => Ok (ESizeOf t, ts2)))
     | KPipe =>
-        bind (parse_reference f (tl ts)) (fun '(r, ts1) =>
+        bind (parse_reference_g lim f (tl ts)) (fun '(r, ts1) =>
         bind (expect_r isPipe ts1) (fun ts2 => Ok (ELength r, ts2)))
     | KExclamation =>
-        bind (parse_primary f (tl ts)) (fun '(e, ts1) => Ok (EUnary BitwiseComplement e, ts1))
+        bind (parse_primary_g lim f (tl ts)) (fun '(e, ts1) => Ok (EUnary BitwiseComplement e, ts1))
     | KMinus =>
-        bind (parse_primary f (tl ts)) (fun '(e, ts1) => Ok (EUnary Negative e, ts1))
-    | _ => parse_primary f ts
+        bind (parse_primary_g lim f (tl ts)) (fun '(e, ts1) => Ok (EUnary Negative e, ts1))
+    | _ => parse_primary_g lim f ts
     end
   end
 
-with parse_primary (f : nat) (ts : list tok) {struct f} : res (expr * list tok) :=
+with parse_primary_g (lim : nat) (f : nat) (ts : list tok) {struct f} : res (expr * list tok) :=
   match f with
   | O => Fuel
   | S f =>
@@ -311,29 +320,29 @@ with parse_primary (f : nat) (ts : list tok) {struct f} : res (expr * list tok) 
       | KStringLiteral =>
           let '(bs, ts2) := take_strings ts1 in Ok (EString (bytes t ++ bs), ts2)
       | KAmpersand =>
-          bind (parse_addressed f ts1) (fun '(r, ts2) =>
+          bind (parse_addressed_g lim f ts1) (fun '(r, ts2) =>
             if isDots (hdk ts2) then
-              bind (parse_addition f (tl ts2)) (fun '(off, ts3) =>
+              bind (parse_addition_g lim f (tl ts2)) (fun '(off, ts3) =>
                 Ok (EBinary AdvancePointer (EDeref r) off, ts3))
             else Ok (EDeref r, ts2))
       | KIdentifier =>
           if isParenLeft (hdk ts1) then
-            bind (expr_list f false (tl ts1)) (fun '(args, ts2) =>
+            bind (expr_list_g lim f false (tl ts1)) (fun '(args, ts2) =>
               Ok (ECall false (tok_name t) args, ts2))
           else if isBraceLeft (hdk ts1) then
-            bind (members_loop f (tl ts1)) (fun '(ms, ts2) =>
+            bind (members_loop_g lim f (tl ts1)) (fun '(ms, ts2) =>
               Ok (EStructural (tok_name t) ms, ts2))
           else
-            bind (steps_loop f O ts1) (fun '(steps, ts2) =>
+            bind (steps_loop_g lim f O ts1) (fun '(steps, ts2) =>
               Ok (EDeref (Ref 0%N (tok_name t) steps), ts2))
       | KBuiltin =>
           bind (expect_r isParenLeft ts1) (fun ts2 =>
-          bind (expr_list f false ts2) (fun '(args, ts3) =>
+          bind (expr_list_g lim f false ts2) (fun '(args, ts3) =>
             Ok (ECall true (tok_name t) args, ts3)))
       | KBracketLeft =>
-          bind (expr_list f true ts1) (fun '(es, ts2) => Ok (EArray es, ts2))
+          bind (expr_list_g lim f true ts1) (fun '(es, ts2) => Ok (EArray es, ts2))
       | KParenLeft =>
-          bind (parse_addition f ts1) (fun '(e, ts2) =>
+          bind (parse_addition_g lim f ts1) (fun '(e, ts2) =>
           bind (expect_r isParenRight ts2) (fun ts3 => Ok (EParen e, ts3)))
       | _ => Err UnexpectedToken
       end
@@ -341,21 +350,21 @@ with parse_primary (f : nat) (ts : list tok) {struct f} : res (expr * list tok) 
   end
 
 (* parse_rest_of_arguments / the array loop: the closing token IS consumed. *)
-with expr_list (f : nat) (br : bool) (ts : list tok) {struct f} : res (list expr * list tok) :=
+with expr_list_g (lim : nat) (f : nat) (br : bool) (ts : list tok) {struct f} : res (list expr * list tok) :=
   match f with
   | O => Fuel
   | S f =>
     if is_close br (hdk ts) then Ok ([], tl ts)
     else
-      bind (parse_addition f ts) (fun '(e, ts1) =>
+      bind (parse_addition_g lim f ts) (fun '(e, ts1) =>
         if isComma (hdk ts1) then
-          bind (expr_list f br (tl ts1)) (fun '(es, ts2) => Ok (e :: es, ts2))
+          bind (expr_list_g lim f br (tl ts1)) (fun '(es, ts2) => Ok (e :: es, ts2))
         else
           bind (expect_r (is_close br) ts1) (fun ts2 => Ok ([e], ts2)))
   end
 
 (* parse_rest_of_structural: the closing brace IS consumed. *)
-with members_loop (f : nat) (ts : list tok) {struct f}
+with members_loop_g (lim : nat) (f : nat) (ts : list tok) {struct f}
   : res (list (name * expr) * list tok) :=
   match f with
   | O => Fuel
@@ -363,16 +372,16 @@ with members_loop (f : nat) (ts : list tok) {struct f}
     if isBraceRight (hdk ts) then Ok ([], tl ts)
     else
       bind (expect_id_r ts) (fun '(n, ts1) =>
-      bind (if isColon (hdk ts1) then parse_addition f (tl ts1)
+      bind (if isColon (hdk ts1) then parse_addition_g lim f (tl ts1)
             else Ok (EDeref (Ref 0%N n []), ts1)) (fun '(e, ts2) =>
         if isComma (hdk ts2) then
-          bind (members_loop f (tl ts2)) (fun '(ms, ts3) => Ok ((n, e) :: ms, ts3))
+          bind (members_loop_g lim f (tl ts2)) (fun '(ms, ts3) => Ok ((n, e) :: ms, ts3))
         else
           bind (expect_r isBraceRight ts2) (fun ts3 => Ok ([(n, e)], ts3))))
   end
 
 (* The Ampersand arm of parse_primary_expression, first `&` taken: depth starts at 1. *)
-with parse_addressed (f : nat) (ts : list tok) {struct f} : res (reference * list tok) :=
+with parse_addressed_g (lim : nat) (f : nat) (ts : list tok) {struct f} : res (reference * list tok) :=
   match f with
   | O => Fuel
   | S f =>
@@ -380,12 +389,12 @@ with parse_addressed (f : nat) (ts : list tok) {struct f} : res (reference * lis
     | None => Err DepthExceeded
     | Some (d, ts1) =>
         bind (expect_id_r ts1) (fun '(b, ts2) =>
-        bind (steps_loop f O ts2) (fun '(steps, ts3) => Ok (Ref d b steps, ts3)))
+        bind (steps_loop_g lim f O ts2) (fun '(steps, ts3) => Ok (Ref d b steps, ts3)))
     end
   end
 
-(* parse_reference: depth starts at 0. *)
-with parse_reference (f : nat) (ts : list tok) {struct f} : res (reference * list tok) :=
+(* parse_reference_g lim: depth starts at 0. *)
+with parse_reference_g (lim : nat) (f : nat) (ts : list tok) {struct f} : res (reference * list tok) :=
   match f with
   | O => Fuel
   | S f =>
@@ -393,25 +402,52 @@ with parse_reference (f : nat) (ts : list tok) {struct f} : res (reference * lis
     | None => Err DepthExceeded
     | Some (d, ts1) =>
         bind (expect_id_r ts1) (fun '(b, ts2) =>
-        bind (steps_loop f O ts2) (fun '(steps, ts3) => Ok (Ref d b steps, ts3)))
+        bind (steps_loop_g lim f O ts2) (fun '(steps, ts3) => Ok (Ref d b steps, ts3)))
     end
   end
 
-(* parse_deref_steps_list; [k] iterations of the `for` loop are already done. *)
-with steps_loop (f : nat) (k : nat) (ts : list tok) {struct f} : res (list step * list tok) :=
+(* parse_deref_steps_list; [k] iterations of the `for` loop are already done, [lim] is the
+   number of iterations the loop can make. *)
+with steps_loop_g (lim : nat) (f : nat) (k : nat) (ts : list tok) {struct f} : res (list step * list tok) :=
   match f with
   | O => Fuel
   | S f =>
-    if (MAX_REFERENCE_DEPTH <=? k)%nat then Err DepthExceeded
+    if (lim <=? k)%nat then Err DepthExceeded
     else if isBracketLeft (hdk ts) then
-      bind (parse_addition f (tl ts)) (fun '(e, ts1) =>
+      bind (parse_addition_g lim f (tl ts)) (fun '(e, ts1) =>
       bind (expect_r isBracketRight ts1) (fun ts2 =>
-      bind (steps_loop f (S k) ts2) (fun '(ss, ts3) => Ok (RsElement e :: ss, ts3))))
+      bind (steps_loop_g lim f (S k) ts2) (fun '(ss, ts3) => Ok (RsElement e :: ss, ts3))))
     else if isDot (hdk ts) then
       bind (expect_id_r (tl ts)) (fun '(m, ts1) =>
-      bind (steps_loop f (S k) ts1) (fun '(ss, ts2) => Ok (RsMember m :: ss, ts2)))
+      bind (steps_loop_g lim f (S k) ts1) (fun '(ss, ts2) => Ok (RsMember m :: ss, ts2)))
     else Ok ([], ts)
   end.
+
+(* `for _ in 0..=MAX_REFERENCE_DEPTH` (the repair) / `for _ in 0..MAX_REFERENCE_DEPTH` (pinned) *)
+Definition REPAIRED_ITERATIONS : nat := S MAX_REFERENCE_DEPTH.
+Definition PINNED_ITERATIONS : nat := MAX_REFERENCE_DEPTH.
+
+(* THE MODEL: the repaired code. *)
+Definition parse_addition := parse_addition_g REPAIRED_ITERATIONS.
+Definition add_loop := add_loop_g REPAIRED_ITERATIONS.
+Definition bit_loop := bit_loop_g REPAIRED_ITERATIONS.
+Definition parse_multiplication := parse_multiplication_g REPAIRED_ITERATIONS.
+Definition mul_loop := mul_loop_g REPAIRED_ITERATIONS.
+Definition parse_singular := parse_singular_g REPAIRED_ITERATIONS.
+Definition parse_unary := parse_unary_g REPAIRED_ITERATIONS.
+Definition parse_primary := parse_primary_g REPAIRED_ITERATIONS.
+Definition expr_list := expr_list_g REPAIRED_ITERATIONS.
+Definition members_loop := members_loop_g REPAIRED_ITERATIONS.
+Definition parse_addressed := parse_addressed_g REPAIRED_ITERATIONS.
+Definition parse_reference := parse_reference_g REPAIRED_ITERATIONS.
+Definition steps_loop := steps_loop_g REPAIRED_ITERATIONS.
+
+(* The parser BEFORE the repair (pinned commit): at most 126 steps per reference. *)
+Definition steps_loop_pinned := steps_loop_g PINNED_ITERATIONS.
+Definition parse_expression_pinned_res (f : nat) (ts : list tok) : res (expr * list tok) :=
+  parse_addition_g PINNED_ITERATIONS f ts.
+Definition parse_expression_pinned (f : nat) (ts : list tok) : option (expr * list tok) :=
+  to_opt (parse_expression_pinned_res f ts).
 
 Definition parse_expression_res (f : nat) (ts : list tok) : res (expr * list tok) :=
   parse_addition f ts.
@@ -522,28 +558,34 @@ with adm_ref (r : reference) : bool :=
 with adm_step (s : step) : bool :=
   match s with RsElement e => admissible e | RsMember _ => true end.
 
-(* [steps_ok e]: every reference of a first-generation tree has fewer than
-   MAX_REFERENCE_DEPTH steps (the second generation rejects exactly 127). *)
-Fixpoint steps_ok (e : expr) : bool :=
+(* [steps_ok_g lim e]: every reference of the tree has fewer than [lim] steps.
+   [steps_ok] (lim = MAX_REFERENCE_DEPTH): what the PINNED second generation accepts
+   (it rejects exactly 127 steps); every tree of the first generation satisfies
+   [steps_ok_g REPAIRED_ITERATIONS]. *)
+Fixpoint steps_ok_g (lim : nat) (e : expr) : bool :=
   match e with
-  | EBinary _ l r => steps_ok l && steps_ok r
-  | EUnary _ e1 => steps_ok e1
+  | EBinary _ l r => steps_ok_g lim l && steps_ok_g lim r
+  | EUnary _ e1 => steps_ok_g lim e1
   | EBool _ | ESigned _ _ | EBits _ _ | EString _ | ESizeOf _ => true
-  | EArray es => forallb steps_ok es
-  | EStructural _ ms => forallb (fun me => steps_ok (snd me)) ms
-  | EParen e1 => steps_ok e1
-  | EDeref r => steps_ok_ref r
-  | EBitCast e1 => steps_ok e1
-  | ETypeCast e1 _ => steps_ok e1
-  | ELength r => steps_ok_ref r
-  | ECall _ _ args => forallb steps_ok args
+  | EArray es => forallb (steps_ok_g lim) es
+  | EStructural _ ms => forallb (fun me => steps_ok_g lim (snd me)) ms
+  | EParen e1 => steps_ok_g lim e1
+  | EDeref r => steps_ok_ref_g lim r
+  | EBitCast e1 => steps_ok_g lim e1
+  | ETypeCast e1 _ => steps_ok_g lim e1
+  | ELength r => steps_ok_ref_g lim r
+  | ECall _ _ args => forallb (steps_ok_g lim) args
   end
-with steps_ok_ref (r : reference) : bool :=
+with steps_ok_ref_g (lim : nat) (r : reference) : bool :=
   match r with
-  | Ref _ _ steps => (length steps <? MAX_REFERENCE_DEPTH)%nat && forallb steps_ok_step steps
+  | Ref _ _ steps => (length steps <? lim)%nat && forallb (steps_ok_step_g lim) steps
   end
-with steps_ok_step (s : step) : bool :=
-  match s with RsElement e => steps_ok e | RsMember _ => true end.
+with steps_ok_step_g (lim : nat) (s : step) : bool :=
+  match s with RsElement e => steps_ok_g lim e | RsMember _ => true end.
+
+Definition steps_ok := steps_ok_g MAX_REFERENCE_DEPTH.
+Definition steps_ok_ref := steps_ok_ref_g MAX_REFERENCE_DEPTH.
+Definition steps_ok_step := steps_ok_step_g MAX_REFERENCE_DEPTH.
 
 (* ------------------------------------------------------------------------- *)
 (* Seeded mutants: NOT the code.  Each is the mutated function on top of the  *)
